@@ -441,6 +441,8 @@ def _is_result_of_this(ad, DF):
     """ad is <descriptor found for this future in the descriptor list>.result"""
     if not (isinstance(ad, tuple) and ad[0] == "attr" and ad[2] == "result"):
         return False
+    if not (isinstance(ad[1], tuple) and ad[1][0] in ("sub", "elem", "unpack")):
+        return False  # .result of the whole selection (a list), not of the descriptor in it
     for s in subterms(ad):
         if s[0] == "attr" and s[2] == DF:
             return True
